@@ -107,6 +107,12 @@ CHECKS.update({
    text="Every call's result or exception class is compared with the reference tree; after every call all read calls must agree with the tree and with each other, ids must be stable (id-style) or equal the normalised path (path-style), info.hash must equal hash_data of the same bytes with equal hash iff equal bytes, and the event stream must report every successful mutation.",
    note="Trusted: the reference tree and the documented error classes. Filesystem events are asynchronous: 5 s polling, one whole-case retry, and the object's final existence is accepted in the event. KF-22 (mock path-style + case-insensitive) is fenced off (lower-case names only) and replayed."),
 })
+CHECKS.update({
+ "C15": dict(engine="E-engine-harness", category="exploration", design_ref="2/C15",
+   technique="runtime monitor driven by property-based generation: every write to the sync state (SyncState.updated) must come from a thread owning the state lock, bucketed by the public entry point; driven by generated sequential histories incl. application-thread API calls, and by sampled real-thread executions (cs.start) whose result is compared with the reference tree and the index-integrity predicate",
+   text="The lock clause is decided deterministically: any state write outside the lock is reported with its call site, whichever thread makes it, over generated histories that exercise the application-facing APIs (requests, un-requests, listings, walks). The 'equivalent to a sequential interleaving' clause is sampled with real threads and varying switch intervals: after quiet + stop the trees must equal the expected tree and the indexes must be intact.",
+   note=E_NOTE + " Real OS interleavings are sampled, not enumerated; a wall-clock wait that runs out is inconclusive, never a violation."),
+})
 NOT_YET = {}
 
 def main():
